@@ -171,6 +171,56 @@ def samename_program(seq):
     return "\n".join(src) + "\n", "\n".join(out) + "\n"
 
 
+# ---- deep paths and modules named like packages: every path segment is a module of its own, loaded once, parents first; a user module
+# called `std` or `math` is just a module below the program's package and must not take the place of a package
+DP_FILES = {
+    "/v/d1.lay": "print('d1 body'); export let x = 'd1';",
+    "/v/d1/d2.lay": "print('d2 body'); export let x = 'd2';",
+    "/v/d1/d2/m.lay": "print('m body'); let c = 0; export let x = 'm'; export fn bump() { c = c + 1; return c; }",
+    "/v/d1/d2/d3.lay": "print('d3 body'); export let x = 'd3';",
+    "/v/d1/d2/d3/n.lay": "print('n body'); export let x = 'n';",
+    "/v/std.lay": "print('user std body'); export let x = 'ustd';",
+    "/v/math.lay": "print('user math body'); export let x = 'umath';",
+}
+DP_PATHS = {"d1": ["d1"], "d2": ["d1", "d2"], "m": ["d1", "d2", "m"], "m_sel": ["d1", "d2", "m"], "n": ["d1", "d2", "d3", "n"], "n_sel": ["d1", "d2", "d3", "n"],
+            "ustd": ["std"], "umath": ["math"]}   # (`self` is a keyword: no module can be called that)
+DP_IMPORTS = list(DP_PATHS) + ["stdmath"]
+DP_BAD = ["d1.d2", "math.abs", "m.x"]   # no such package, whatever was imported before
+
+
+def deep_program(seq, bad=None):
+    src, out = ["print('main start');"], ["main start"]
+    loaded = set()
+    bumps = 0
+    for k, imp in enumerate(seq):
+        if imp == "stdmath":
+            src.append("import std.math as k%d; print(k%d.abs(0 - 7));" % (k, k))
+            out.append("7")
+            continue
+        path = DP_PATHS[imp]
+        for j in range(1, len(path) + 1):
+            if tuple(path[:j]) not in loaded:
+                loaded.add(tuple(path[:j]))
+                out.append({"std": "user std", "self": "user self", "math": "user math"}.get(path[j - 1], path[j - 1]) + " body")
+        if imp.endswith("_sel"):
+            src.append("import self.%s:{x as k%d}; print(k%d);" % (".".join(path), k, k))
+            out.append(path[-1])
+        else:
+            src.append("import self.%s as k%d; print(k%d.x);" % (".".join(path), k, k))
+            out.append({"std": "ustd", "self": "uself", "math": "umath"}.get(path[-1], path[-1]))
+        if imp in ("m",):
+            bumps += 1
+            src.append("print(k%d.bump());" % k)
+            out.append(str(bumps))
+    if bad is not None:
+        src.append("import %s as kb;" % bad)
+        src.append("print('not reached');")
+        return "\n".join(src) + "\n", ("runtime_error", "\n".join(out) + "\n", "ImportError")
+    src.append("print('main end');")
+    out.append("main end")
+    return "\n".join(src) + "\n", ("ok", "\n".join(out) + "\n", None)
+
+
 # ---- module bodies that use fibers and channels, imported by a program that has fibers of its own: the body still runs to its
 # end, once, before the importer continues (the order in which other fibers print is the scheduler's business and is not compared)
 MF_BODIES = {
@@ -224,6 +274,12 @@ class C17(Check):
         for r in ((2, 3, 4) if th else (2, 3)):
             for seq in itertools.permutations(SN_IMPORTS, r):
                 yield ("samename", seq)
+        for r in ((1, 2, 3, 4) if th else (1, 2, 3)):
+            for seq in itertools.permutations(DP_IMPORTS, r):
+                yield ("deep", seq, None)
+                if r <= 2:
+                    for bad in DP_BAD:
+                        yield ("deep", seq, bad)
         for body in MF_BODIES:
             for pre in MF_PRE:
                 for form in MF_FORMS:
@@ -235,7 +291,7 @@ class C17(Check):
                     yield ("graph", 1, (), (), ("a",), (form,), subdir, None, neg)
 
     def files(self, spec):
-        if spec[0] == "samename":
+        if spec[0] in ("samename", "deep"):
             return None
         _, nmods, es, ef, targets, fm, subdir, dup, neg = spec
         edges = {}
@@ -250,6 +306,8 @@ class C17(Check):
     def describe(self, spec):
         if spec[0] == "modfiber":
             return "module body=%s imported (%s) by a program with fibers of its own=%s, used again later=%s" % (spec[1], spec[3], spec[2], spec[4])
+        if spec[0] == "deep":
+            return "deep paths / modules named like packages, main imports in order: %s%s" % (list(spec[1]), (" then the unknown package path " + spec[2]) if spec[2] else "")
         if spec[0] == "samename":
             return "same-named modules (std.math, self.math, self.dir.math and three importers of them), main imports in order: %s" % list(spec[1])
         _, nmods, es, ef, targets, fm, subdir, dup, neg = spec
@@ -258,6 +316,11 @@ class C17(Check):
     def build(self, spec):
         if spec[0] == "modfiber":
             return [{"files": modfiber_files(*spec[1:]), "entry": "/v/main.lay", "step_limit": 300000}], ("modfiber", None, None)
+        if spec[0] == "deep":
+            src, exp = deep_program(spec[1], spec[2])
+            files = dict(DP_FILES)
+            files["/v/main.lay"] = src
+            return [{"files": files, "entry": "/v/main.lay", "step_limit": 300000}], exp
         if spec[0] == "samename":
             src, want = samename_program(spec[1])
             files = dict(SN_FILES)
@@ -288,7 +351,7 @@ class C17(Check):
         if not ok:
             return Verdict(False, True, "mismatch", "expected class=%s%s out=%r; got class=%s out=%r err=%r %s" % (
                 cls, "(%s)" % ecls if ecls else "", out, r.get("class"), r.get("out"), r.get("err", "")[-200:], r.get("panic") or ""))
-        if spec[0] == "samename":
+        if spec[0] in ("samename", "deep"):
             return Verdict(True, True, cls)
         return Verdict(True, spec[1] > 1 or spec[7] is not None or spec[8] is not None, cls)
 
